@@ -89,7 +89,7 @@ fn access(label: &str) -> Vec<(Obj, bool)> {
         "wait:is_compiling?" => vec![(Obj::IsCompiling, false), (Obj::LastState, false)],
         "send:try_recv" | "send:send" => vec![(Obj::Channel, true)],
         // awaiting registers with / consumes the notification; the loop head after it creates the next Notified
-        "wait:notified" | "resume(notified)" => vec![(Obj::Notify, true)],
+        "wait:notified" | "resume(notified)" | "start" => vec![(Obj::Notify, true)],
         _ => vec![(Obj::All, true)],
     }
 }
@@ -106,7 +106,10 @@ fn independent(a: &Trans, b: &Trans) -> bool {
     let widen = |t: &Trans, v: &mut Vec<(Obj, bool)>| {
         if t.actor != WORKER {
             match t.label {
-                "start" | "resume(written)" => v.push((Obj::All, true)),
+                "start(change)" | "resume(written)" => v.push((Obj::All, true)),
+                // didOpen / didSave / documentSymbol touch nothing shared before their first stop, except that
+                // wait_for_parsing creates its Notified there
+                "start" => v.push((Obj::Notify, true)),
                 "send:send" | "wait:rx.is_empty?" | "resume(notified)" | "wait:notified" | "open:is_compiling=true" => v.push((Obj::Notify, true)),
                 _ => {}
             }
@@ -178,6 +181,10 @@ impl Chooser for DfsChooser<'_> {
         self.stack.push(DfsNode { enabled: enabled.to_vec(), sleep, cur });
         Some(cur)
     }
+    fn abandon(&self) -> bool {
+        // sleep-set blocked: every continuation is equivalent to an execution explored elsewhere
+        self.blocked
+    }
 }
 /// advance the DFS stack to the next unexplored branch; false when the enumeration is complete
 fn dfs_backtrack(stack: &mut Vec<DfsNode>) -> bool {
@@ -239,12 +246,14 @@ pub fn judge(script: &[Ev], o: &Outcome) -> Result<Option<Verdict>, String> {
         return Ok(Some(Verdict { signature: "compile-requested-before-text-on-disk".into(), summary: format!("a handler requested a compilation while the file on disk was not its document ({l})") }));
     }
     // (b) quiescent: the compiled program shows the marker of the server's current document and no other
-    if o.token_markers != o.doc_markers {
+    // (a text that does not parse cannot be compiled: the server keeps its last program, by design)
+    if !o.doc_broken && o.token_markers != o.doc_markers {
         // which requests were sent, in order
         let sends: Vec<usize> = o.trace.iter().filter(|s| s.label == "send:send").map(|s| s.actor).collect();
-        let last_change_send = sends.iter().rposition(|a| matches!(script[*a], Ev::Change(_)));
+        let versioned = |a: &usize| matches!(script[*a], Ev::Change(_) | Ev::ChangeBroken(_));
+        let last_change_send = sends.iter().rposition(versioned);
         let unversioned_after = match last_change_send {
-            Some(k) => sends[k + 1..].iter().any(|a| !matches!(script[*a], Ev::Change(_))),
+            Some(k) => sends[k + 1..].iter().any(|a| !versioned(a)),
             None => false,
         };
         let sig = if unversioned_after { "lost-edit:unversioned-request-sent-after-last-change".to_string() } else { "lost-edit:last-request-was-the-latest-change".to_string() };
@@ -289,7 +298,7 @@ pub struct Case {
     pub schedule: Vec<u16>,
 }
 fn script_strategy() -> impl Strategy<Value = Vec<Ev>> {
-    prop::collection::vec(0u8..6, 1..=4).prop_map(|ks| {
+    prop::collection::vec(0u8..8, 1..=4).prop_map(|ks| {
         let mut v = vec![Ev::Open];
         let mut ver = 0u8;
         for k in ks {
@@ -299,7 +308,11 @@ fn script_strategy() -> impl Strategy<Value = Vec<Ev>> {
                     Ev::Change(ver)
                 }
                 3 => Ev::Save,
-                4 => Ev::Symbols,
+                4 | 5 => Ev::Symbols,
+                6 => {
+                    ver += 1;
+                    Ev::ChangeBroken(ver)
+                }
                 _ => Ev::Open,
             });
         }
@@ -342,6 +355,8 @@ fn pinned() -> Vec<(&'static str, Vec<Ev>, Vec<Dir>)> {
         ),
         // second open of a compiled project: the cached compilation is instantaneous
         ("second-open", vec![Ev::Open, Ev::Open, Ev::Change(1)], vec![Dir::ToBlock(0), Dir::ToBlock(w), Dir::ToBlock(0), Dir::Until(1, "wait:is_compiling?"), Dir::ToBlock(w), Dir::ToBlock(1), Dir::ToBlock(2), Dir::ToBlock(w)]),
+        // a compilation that fails (text does not parse) must still release the waiters
+        ("failed-compilation-releases-waiters", vec![Ev::Open, Ev::ChangeBroken(1), Ev::Symbols, Ev::Save], vec![Dir::ToBlock(0), Dir::ToBlock(w), Dir::ToBlock(0), Dir::ToBlock(1), Dir::ToBlock(2), Dir::ToBlock(w), Dir::ToBlock(2), Dir::ToBlock(3), Dir::ToBlock(w), Dir::ToBlock(3)]),
         // KNOWN finding: a save drains the queued request of the change; its own request carries no versions
         ("save-drains-change", vec![Ev::Open, Ev::Change(1), Ev::Save], vec![Dir::ToBlock(0), Dir::ToBlock(w), Dir::ToBlock(0), Dir::ToBlock(1), Dir::ToBlock(2), Dir::ToBlock(w), Dir::ToBlock(2)]),
     ]
@@ -364,6 +379,7 @@ pub fn run(ctx: &Ctx) {
     rep.assume("the retrigger_compilation read in forc_pkg::check (after compile_to_ast) has no hook and belongs to the step of the preceding check_should_abort");
     install_hooks();
     install_worker_panic_hook();
+    let real_failures = std::sync::atomic::AtomicU64::new(0);
     let only = std::env::var("VERIF_C24_ONLY").ok();
     let want = |s: &str| only.as_deref().is_none_or(|o| o == s);
     let record = |script: &[Ev], o: &Outcome, class: &str| -> bool {
@@ -382,6 +398,9 @@ pub fn run(ctx: &Ctx) {
             }
             Ok(None) => true,
             Ok(Some(v)) => {
+                if !KNOWN_SIGS.contains(&v.signature.as_str()) {
+                    real_failures.fetch_add(1, std::sync::atomic::Ordering::Relaxed);
+                }
                 rep.violation(Violation { signature: v.signature, summary: format!("script {:?}: {}", script, v.summary), replay: case_json(script, Some(o)) });
                 false
             }
@@ -430,17 +449,20 @@ pub fn run(ctx: &Ctx) {
                                 break;
                             }
                             if was_blocked {
-                                // an equivalent execution is explored elsewhere; this one was finished by the default policy and is judged anyway
+                                // an equivalent execution is explored elsewhere: abandoned, not judged
                                 blocked += 1;
                             } else {
                                 complete += 1;
+                                record(script, &o, &format!("enum:{}", script[1].kind()));
                             }
-                            record(script, &o, &format!("enum:{}", script[1].kind()));
+                            if (complete + blocked) % 250 == 0 {
+                                eprintln!("[c24-enum] {:?}: {} traces, {} sleep-blocked, stack depth {}", script, complete, blocked, stack.len());
+                            }
                             if !dfs_backtrack(&mut stack) {
                                 exhausted = true;
                                 break;
                             }
-                            if complete + blocked >= budget || rep.violation_count() > 3 {
+                            if complete + blocked >= budget || real_failures.load(std::sync::atomic::Ordering::Relaxed) > 3 {
                                 break;
                             }
                         }
@@ -460,7 +482,7 @@ pub fn run(ctx: &Ctx) {
     }
 
     // (iii) random scripts and schedules
-    if want("random") && rep.violation_count() == 0 {
+    if want("random") && real_failures.load(std::sync::atomic::Ordering::Relaxed) == 0 {
         let cases = ctx.cases(1200, 60_000);
         let out = run_prop(ctx, 24, cases, strategy, |c| {
             let o = execute(&c.script, &mut VecChooser { v: &c.schedule }).map_err(|e| format!("HARNESS\u{1}{e}"));
